@@ -36,7 +36,7 @@ CLAIMS = {
     "C15": ("Walk definition + Lem_Walk (simple path, mirror) checked by TLC; all ordered pairs replayed", "Exhaustive over all forests <= 6 (8) nodes and all ordered node pairs.", "6/C15"),
     "C16": ("declarative IdealLog/Observes (NodeOpsProps) checked against the interpreter by TLC (Thm_C16); complete hook logs with in-hook snapshots compared on every transition; re-entrant hooks (MC_OpsRe / Thm_Re): the nested call obeys the protocol and every later per-node hook of a non-interfered call still observes what is promised", "Exhaustive within bounds; hook sequences of refused/aborted children assignments are deliberately unconstrained.", "6/C16"),
     "C17": ("the specification is the identity-only semantics; conformance of 16 adversarial class families (always-equal, never-equal, falsy, zero-length, unhashable, container-like, ordering, tripwire x both mixins) to the same TLC vectors, in lock-step with the plain class",
-            "Vectors of M1 (all fault plans), M2 (navigation, util, iterators, Walker, search) and M3 (Resolver get/glob); 'all user classes' is represented by the finite family; found and repaired the leftsibling/rightsibling and glob('**') identity defects.", "6/C17"),
+            "Vectors of M1 (all fault plans, and calls with re-entrant hooks), M2 (navigation, util, iterators, Walker, search) and M3 (Resolver get/glob); 'all user classes' is represented by the finite family; found and repaired the leftsibling/rightsibling and glob('**') identity defects.", "6/C17"),
     "C18": ("one specification, two implementations: both mixins replayed on the same vectors (mutators with all fault plans and with re-entrant hooks, and queries) and compared in lock-step", "Exhaustive within the M1/M2 bounds.", "6/C18"),
     "C19": ("CloneDef (canonical copy of the closure under parent/children/target) proved to satisfy the label-free predicate IsCopy by TLC (Thm_Clone); every (forest, family, entry node, method) vector replayed with a lock-step correspondence walk; follow-up mutations on both sides; judged by TLC (TraceClone)",
             "Exhaustive over forests <= 4 (5) nodes x 5 class families (incl. links to the same tree, another tree, another link) x deepcopy and pickle protocols 0-5.", "6/C19"),
